@@ -140,6 +140,9 @@ inductive Ty
   | union (a b : Ty)                 -- `Optional[t]` = `union t none`; n-ary unions nest to the right
   | list (t : Ty) | set (t : Ty) | dict (k v : Ty)
   | spec (c : Nat)
+  /-- a validated type (`validated(...)`, `bounded(...)`): the base annotation and the index of the
+  value predicate in `Env.pred` -/
+  | valid (base : Ty) (p : Nat)
   deriving DecidableEq, Repr
 
 structure AttrSpec where
@@ -154,6 +157,8 @@ structure AttrSpec where
   /-- what `getattr(obj, name)` finds on the class when the instance dictionary has no entry
   (a default written in the class body; `none` for factories and for no default) -/
   classAttr : Option Val := none
+  /-- `invalidated_by`: writing one of these attributes deletes this one (back to its default) -/
+  invalidatedBy : List Nat := []
   deriving DecidableEq
 
 structure ClassSpec where
@@ -170,6 +175,8 @@ structure Env where
   classes : List ClassSpec
   /-- the preparer pool: `prep id instance value` (pure, total) -/
   prep : Nat → Val → Val → Val
+  /-- the validators of validated types (pure, total predicates on values) -/
+  pred : Nat → Val → Bool := fun _ _ => true
 
 def Env.cls? (E : Env) (c : Nat) : Option ClassSpec := E.classes.find? (·.id == c)
 def ClassSpec.attr? (cs : ClassSpec) (a : Nat) : Option AttrSpec := cs.attrs.find? (·.name == a)
@@ -219,6 +226,7 @@ def conforms (E : Env) : Ty → Val → Bool
   | .set t, .set xs => xs.all (conforms E t)
   | .dict k v, .dict kvs => kvs.all (fun k' v' => conforms E k k' && conforms E v v')
   | .spec c, .inst d _ => E.isSub d c
+  | .valid b p, v => conforms E b v && E.pred p v
   | _, _ => false
 
 /-- `attr_spec.is_collection` (`type_match(type, MutableSequence / MutableMapping / MutableSet)`) -/
@@ -244,6 +252,7 @@ inductive Ctor
   | builtin (dflt : Val)    -- `int`, `str`, `bool`, `float`, `NoneType`: `T()`; keywords are a TypeError
   | coll (empty : Val)      -- `List[..]` &c.: `.__origin__()` when stripped, TypeError when called as `List[int](**kw)`
   | uncallable              -- `Union`, `Literal`, `Any`: TypeError
+  | noinst                  -- a validated type: "should not be instantiated", RuntimeError
   deriving DecidableEq
 
 def Ty.ctor : Ty → Ctor
@@ -261,6 +270,7 @@ def Ty.ctor : Ty → Ctor
   | .dict _ _ => .coll (.dict .nil)
   | .lit _ => .uncallable
   | .any => .uncallable
+  | .valid _ _ => .noinst
 
 /-- the class whose attributes the generated helper accepts as keywords
 (`with_spec_attrs_for(attr_spec.type)`: only when the annotation itself is a spec class) -/
@@ -301,11 +311,51 @@ structure MV where
   transform : Option Tr := none
   attrTransforms : KwT := []
 
-/-- `mutate_attr`'s own work on a value: sentinel short-circuit, type check, store. -/
-def mutateAttrV (E : Env) (obj : Val) (sp : AttrSpec) (v : Val) : Except Err Val :=
+def classOf : Val → Option Nat
+  | .inst c _ => some c
+  | _ => none
+
+/-- the managed attribute `a` of the receiver's class (helpers exist only for those) -/
+def specOf (E : Env) (recv : Val) (a : Nat) : Option AttrSpec :=
+  (classOf recv).bind (fun c => E.attr? c a)
+
+/-- `delattr(obj, d)` of a dependant during invalidation: back to its default (dependants carry no preparer
+in the modelled families; a default that does not conform would raise and is not modelled) -/
+def resetDependant (E : Env) (obj : Val) (d : Nat) : Val :=
+  match specOf E obj d with
+  | none => obj
+  | some sp =>
+    if sp.defaultVal = MISSING then obj.setField d MISSING
+    else if conforms E sp.ty sp.defaultVal then obj.setField d sp.defaultVal
+    else obj
+
+/-- `d` is declared `invalidated_by=[…, a, …]` -/
+def dependsOn (E : Env) (obj : Val) (d a : Nat) : Bool :=
+  match specOf E obj d with
+  | some sp => sp.invalidatedBy.contains a && d != a
+  | none => false
+
+/-- `invalidate_attrs(obj, a)`: every dependant of `a` is deleted, then its own dependants, and so on -/
+def invalidateAux (E : Env) (names : List Nat) : Nat → Val → Nat → Val
+  | 0, obj, _ => obj
+  | k+1, obj, a =>
+    names.foldl (fun acc d =>
+      if dependsOn E acc d a then invalidateAux E names k (resetDependant E acc d) d else acc) obj
+
+def Env.invalidate (E : Env) (obj : Val) (a : Nat) : Val :=
+  match obj with
+  | .inst c _ =>
+    match E.cls? c with
+    | some cs => invalidateAux E (cs.attrs.map (·.name)) cs.attrs.length obj a
+    | none => obj
+  | _ => obj
+
+/-- `mutate_attr`'s own work on a value: sentinel short-circuit, type check, store, invalidate the
+dependants (unless `skip_invalidation`, as during construction). -/
+def mutateAttrV (E : Env) (skip : Bool) (obj : Val) (sp : AttrSpec) (v : Val) : Except Err Val :=
   if v.isSent then .ok obj
   else if !conforms E sp.ty v then .error .typeError
-  else .ok (obj.setField sp.name v)
+  else .ok (if skip then obj.setField sp.name v else E.invalidate (obj.setField sp.name v) sp.name)
 
 /-- required positional key missing from the call -/
 def keyMissing (cs : ClassSpec) (kw : Kw) : Bool :=
@@ -358,6 +408,7 @@ def mvConstruct (E : Env) (ctor : Nat → Kw → Except Err Val) (p : MV) (value
         | .builtin d => if dkw.isEmpty && p.attrs.isEmpty then .ok (d, []) else .error .typeError
         | .coll _ => .error .typeError
         | .uncallable => .error .typeError
+        | .noinst => .error .runtimeError
     else .ok (value, [])
   | some ty, v =>
     if v = MISSING then
@@ -370,6 +421,7 @@ def mvConstruct (E : Env) (ctor : Nat → Kw → Except Err Val) (p : MV) (value
       | .builtin d => .ok (d, [])
       | .coll e => .ok (e, [])
       | .uncallable => .error .typeError
+      | .noinst => .error .runtimeError
     else .ok (v, [])
   | none, v => .ok (v, [])
 
@@ -426,22 +478,22 @@ def mutateValue (E : Env) : Nat → Val → MV → Except Err Val
     match mvConstruct E (construct E n) p (mvValue old p) with
     | .error e => .error e
     | .ok (value, used) =>
-      match mvAttrs (setAttrV E n) used p.attrs value with
+      match mvAttrs (setAttrV E n false) used p.attrs value with
       | .error e => .error e
-      | .ok value => mvAttrTransforms E (setAttrV E n) p.attrTransforms (mvTransform p value)
+      | .ok value => mvAttrTransforms E (setAttrV E n false) p.attrTransforms (mvTransform p value)
 
 /-- `setattr(value, a, v)`: the generated `__setattr__` of spec classes
 (`prepare_attr_value` + `mutate_attr(inplace=True)`), `AttributeError` on other values. -/
-def setAttrV (E : Env) : Nat → Val → Nat → Val → Except Err Val
-  | 0, _, _, _ => .error .runtimeError
-  | n+1, .inst c fs, a, v =>
+def setAttrV (E : Env) : Nat → Bool → Val → Nat → Val → Except Err Val
+  | 0, _, _, _, _ => .error .runtimeError
+  | n+1, skip, .inst c fs, a, v =>
     match E.attr? c a with
     | none => .ok (if v.isSent then .inst c fs else .inst c (fs.set a v))
     | some sp =>
       match prepareAttrValue E n (.inst c fs) sp v [] with
       | .error e => .error e
-      | .ok pv => mutateAttrV E (.inst c fs) sp pv
-  | _, _, _, _ => .error .attributeError
+      | .ok pv => mutateAttrV E skip (.inst c fs) sp pv
+  | _, _, _, _, _ => .error .attributeError
 
 /-- `prepare_attr_value(attr_spec, instance, value, attrs)` -/
 def prepareAttrValue (E : Env) : Nat → Val → AttrSpec → Val → Kw → Except Err Val
@@ -518,7 +570,7 @@ def construct (E : Env) : Nat → Nat → Kw → Except Err Val
           match cs.attr? a with
           | none => .ok acc
           | some sp =>
-            if initValue sp kw = MISSING then .ok acc else setAttrV E n acc a (initValue sp kw))
+            if initValue sp kw = MISSING then .ok acc else setAttrV E n true acc a (initValue sp kw))
         (.inst c (allMissing cs.attrs))
 
 end
@@ -550,8 +602,8 @@ sentinel; otherwise type check, copy unless `inplace`, store. -/
 def mutateAttr (E : Env) (recv : Val) (sp : AttrSpec) (v : Val) (inplace : Bool) : Except Err Outcome :=
   if v.isSent then .ok ⟨recv, .receiver⟩
   else if !conforms E sp.ty v then .error .typeError
-  else if inplace then .ok ⟨recv.setField sp.name v, .receiver⟩
-  else .ok ⟨recv, .fresh (recv.setField sp.name v)⟩
+  else if inplace then .ok ⟨E.invalidate (recv.setField sp.name v) sp.name, .receiver⟩
+  else .ok ⟨recv, .fresh (E.invalidate (recv.setField sp.name v) sp.name)⟩
 
 /-- the keyword check of the generated wrapper (`validate_attrs`): keywords are
 accepted only for the attributes of the annotation's spec class -/
@@ -562,10 +614,6 @@ def kwOk (E : Env) (ty : Ty) (names : List Nat) : Bool :=
      | some c => match E.cls? c with
        | none => false
        | some cs => names.all (fun a => (cs.attr? a).isSome))
-
-def classOf : Val → Option Nat
-  | .inst c _ => some c
-  | _ => none
 
 /-- `WithAttrMethod.with_attr` -/
 def withAttr (E : Env) (n : Nat) (recv : Val) (sp : AttrSpec) (v : Val) (kw : Kw) (inplace cond : Bool) :
@@ -599,10 +647,11 @@ def transformAttr (E : Env) (n : Nat) (recv : Val) (sp : AttrSpec) (f : Option T
 `del` (AttributeError when nothing is set). -/
 def delAttrV (E : Env) (n : Nat) (obj : Val) (sp : AttrSpec) : Except Err Val :=
   if sp.defaultVal = MISSING then
-    (if obj.getAttr sp.name = MISSING then .error .attributeError else .ok (obj.setField sp.name MISSING))
+    (if obj.getAttr sp.name = MISSING then .error .attributeError
+     else .ok (E.invalidate (obj.setField sp.name MISSING) sp.name))
   else match prepareAttrValue E n obj sp sp.defaultVal [] with
     | .error e => .error e
-    | .ok pv => mutateAttrV E obj sp pv
+    | .ok pv => mutateAttrV E false obj sp pv
 
 def outcomeOf (recv new : Val) (inplace : Bool) : Outcome :=
   if inplace then ⟨new, .receiver⟩ else ⟨recv, .fresh new⟩
@@ -683,10 +732,6 @@ structure Call where
   inplace : Bool := false
   cond : Bool := true
 
-/-- the managed attribute `a` of the receiver's class (helpers exist only for those) -/
-def specOf (E : Env) (recv : Val) (a : Nat) : Option AttrSpec :=
-  (classOf recv).bind (fun c => E.attr? c a)
-
 /-- a call that raised before touching the receiver -/
 def lift (recv : Val) : Except Err Outcome → Outcome
   | .ok o => o
@@ -710,7 +755,7 @@ def run (E : Env) (n : Nat) (recv : Val) (c : Call) : Outcome :=
     | some sp => lift recv (resetAttr E n recv sp c.inplace c.cond)
   | .setattr a v => match specOf E recv a with
     | none => ⟨recv, .raised .attributeError⟩
-    | some _ => lift recv ((setAttrV E (n+1) recv a v).map fun r => ⟨r, .receiver⟩)
+    | some _ => lift recv ((setAttrV E (n+1) false recv a v).map fun r => ⟨r, .receiver⟩)
   | .delattr a => match specOf E recv a with
     | none => ⟨recv, .raised .attributeError⟩
     | some sp => lift recv ((delAttrV E n recv sp).map fun r => ⟨r, .receiver⟩)
@@ -733,6 +778,8 @@ def run (E : Env) (n : Nat) (recv : Val) (c : Call) : Outcome :=
 * "`a.x = v` is equivalent to `a.with_x(v, _inplace=True)`", deleting = resetting
 * `update` / `transform` / `reset`: the same for several attributes at once
 * `_if=False`, MISSING, UNCHANGED: no-op returning the receiver (property text)
+* storing a value (`mutateAttr`) includes what `invalidated_by` documents: every dependant of the written
+  attribute is back at its default afterwards, also when the written value equals the old one
 
 Two primitives are taken from the object model and not re-specified: calling a
 class (`construct`) and assigning an attribute of a *nested* value (`setAttrV`);
@@ -763,6 +810,7 @@ def castDict (E : Env) (m : Nat) (ty : Ty) (v : Val) : Except Err Val :=
         | .builtin d => if dkw.isEmpty then .ok d else .error .typeError
         | .coll _ => .error .typeError
         | .uncallable => .error .typeError
+        | .noinst => .error .runtimeError
   | v => .ok v
 
 /-- "the prepared v": preparer, dict → nested instance, collection normalisation -/
@@ -781,20 +829,20 @@ def assign (E : Env) (m : Nat) (recv : Val) (sp : AttrSpec) (v : Val) (inplace :
 def assignV (E : Env) (m : Nat) (obj : Val) (sp : AttrSpec) (v : Val) : Except Err Val :=
   match prepared E m obj sp v with
   | .error e => .error e
-  | .ok pv => mutateAttrV E obj sp pv
+  | .ok pv => mutateAttrV E false obj sp pv
 
 /-- merge keywords into a nested value: successive attribute assignments (a MISSING keyword is skipped);
 there is nothing to merge into `None` / no value -/
 def merge (E : Env) (n : Nat) (base : Val) (kw : Kw) : Except Err Val :=
   if kw.isEmpty then .ok base
   else if base = NONE || base = MISSING then .error .valueError
-  else kw.foldlM (fun acc kv => if kv.2 = MISSING then .ok acc else setAttrV E n acc kv.1 kv.2) base
+  else kw.foldlM (fun acc kv => if kv.2 = MISSING then .ok acc else setAttrV E n false acc kv.1 kv.2) base
 
 /-- the same with transforms of the attributes' current values -/
 def mergeT (E : Env) (n : Nat) (base : Val) (kt : KwT) : Except Err Val :=
   kt.foldlM (fun acc af =>
       let tv := af.2 (E.getAttr acc af.1)
-      if tv = MISSING then .ok acc else setAttrV E n acc af.1 tv) base
+      if tv = MISSING then .ok acc else setAttrV E n false acc af.1 tv) base
 
 /-- a freshly built nested instance -/
 def build (E : Env) (n : Nat) (c : Nat) (kw : Kw) : Except Err Val :=
@@ -860,7 +908,8 @@ def transformA (E : Env) (m : Nat) (recv : Val) (sp : AttrSpec) (f : Option Tr) 
 
 def resetV (E : Env) (m : Nat) (obj : Val) (sp : AttrSpec) : Except Err Val :=
   if sp.defaultVal = MISSING then
-    (if obj.getAttr sp.name = MISSING then .error .attributeError else .ok (obj.setField sp.name MISSING))
+    (if obj.getAttr sp.name = MISSING then .error .attributeError
+     else .ok (E.invalidate (obj.setField sp.name MISSING) sp.name))
   else assignV E m obj sp sp.defaultVal
 
 def resetA (E : Env) (m : Nat) (recv : Val) (sp : AttrSpec) (inplace cond : Bool) : Outcome :=
